@@ -38,6 +38,7 @@ type ReplayOutcome struct {
 	AssumeViolated bool
 	Output   string
 	OK       bool // the go test process ran the harness
+	Observed []string
 }
 
 // NativeReplay compiles the package under test with the harness overlay and runs the harnesses natively
@@ -110,6 +111,7 @@ func NativeReplay(l *Loaded, pkgKey string, files []string, timeout time.Duratio
 			Failed   []string `json:"failed"`
 			Panicked string   `json:"panicked"`
 			Covered  []string `json:"covered"`
+			Observed []string `json:"observed"`
 			AssumeViolated bool `json:"assume_violated"`
 			Done     bool     `json:"done"`
 		}
@@ -118,6 +120,7 @@ func NativeReplay(l *Loaded, pkgKey string, files []string, timeout time.Duratio
 		}
 		ro.OK = true
 		ro.Failed, ro.Panicked, ro.AssumeViolated = o.Failed, o.Panicked, o.AssumeViolated
+		ro.Observed = o.Observed
 		for _, c := range o.Covered {
 			ro.Covered[c] = true
 		}
